@@ -141,6 +141,7 @@ PROPS["C06"] = dict(
         dict(name="clean", harness="comms", weight=1, runs=dict(quick=600, thorough=10000), opts=dict(lossy=False)),
         dict(name="lossy", harness="comms", weight=3, runs=dict(quick=2500, thorough=60000), opts=dict(lossy=True)),
         dict(name="partition", harness="comms", weight=2, runs=dict(quick=600, thorough=15000), opts=dict(lossy=False, partition=True)),
+        dict(name="exec-malformed", harness="comms", weight=1, runs=dict(quick=300, thorough=8000), opts=dict(lossy=False, bad_frames=True, max_ops=12)),
         dict(name="burst", harness="comms", weight=1, runs=dict(quick=300, thorough=8000), opts=dict(lossy=False, burst=True)),
         dict(name="burst-lossy", harness="comms", weight=1, runs=dict(quick=300, thorough=8000), opts=dict(lossy=True, burst=True)),
         dict(name="malformed", harness="comms", weight=1, runs=dict(quick=1500, thorough=30000), opts=dict(mode="malformed")),
